@@ -8,6 +8,7 @@ import (
 	"fmt"
 	"os"
 	"path/filepath"
+	"sort"
 	"strconv"
 	"strings"
 	"sync"
@@ -37,6 +38,9 @@ type c15Cycle struct {
 	// Redefine: templates acknowledged in an earlier cycle are re-announced with this (smaller) definition,
 	// so that the cache written at this cycle's shutdown is shorter than the file it replaces
 	Redefine []c15Key `json:"redefine,omitempty"`
+	// LateMS: single datagrams sent this many milliseconds AFTER the signal, into the shutdown window, following
+	// a quiet period (the receive loop may still be blocked in a read when the work queue is closed)
+	LateMS []int `json:"late_ms,omitempty"`
 }
 
 type c15Case struct {
@@ -47,7 +51,7 @@ type c15Case struct {
 
 const c15Rule = "case = 1..3 stop/start cycles of the real collector binary (2..8 workers per protocol, rawSocket sink and restful stats owned by the harness, per-instance pid and cache files) with 1..8 exporters on 127.0.0.x and ::1: " +
 	"per cycle new IPFIX / NetFlow v9 templates are announced (or all known ones redefined with a shorter definition, so that the next cache file is shorter than the one it replaces) and acknowledged (a data message using them reached the sink), sFlow/NetFlow v5 noise, a data burst, then SIGTERM or SIGINT after a drawn delay, " +
-	"optionally with traffic (data and announcements of fresh template ids) continuing through the shutdown window; a final verification restart follows the last cycle; " +
+	"optionally with traffic (data and announcements of fresh template ids) continuing through the shutdown window, or with single late datagrams 0.9..2.1 s after the signal following a quiet period; a final verification restart follows the last cycle; " +
 	"oracle per cycle = exit status 0 within 6 s of the signal, stderr free of panic / fatal error / concurrent map, both cache files exist, load and decode data for every acknowledged (exporter,id) to the reference decode, " +
 	"and after the restart data sent WITHOUT templates for every acknowledged (exporter,id) is published with the reference payload; " +
 	"non-trivial = a cycle with >= 1 acknowledged template and traffic in flight at the signal; distinct by hash"
@@ -111,6 +115,12 @@ func genC15(t *rapid.T) c15Case {
 			nf := rapid.IntRange(0, 12).Draw(t, "nfresh")
 			for k := 0; k < nf; k++ {
 				cy.Fresh = append(cy.Fresh, genKey())
+			}
+		}
+		if !cy.Inflight && rapid.Bool().Draw(t, "late") {
+			n := rapid.IntRange(1, 6).Draw(t, "nlate")
+			for k := 0; k < n; k++ {
+				cy.LateMS = append(cy.LateMS, rapid.SampledFrom([]int{900, 990, 1005, 1020, 1050, 1100, 1200, 1300, 1500, 1700, 1900, 2100}).Draw(t, "latems"))
 			}
 		}
 		c.Cycles = append(c.Cycles, cy)
@@ -340,7 +350,31 @@ func runC15(c *c15Case) (v verdict, sig string, err error) {
 		}
 		sent := time.Now()
 		proc.signal(sigNo)
+		if len(cy.LateMS) > 0 {
+			v.label(true, "late-datagrams-after-signal")
+			late := append([]int{}, cy.LateMS...)
+			sort.Ints(late)
+			twg.Add(1)
+			go func() {
+				defer twg.Done()
+				for i, ms := range late {
+					if d := time.Until(sent.Add(time.Duration(ms) * time.Millisecond)); d > 0 {
+						select {
+						case <-stopTraffic:
+							return
+						case <-time.After(d):
+						}
+					}
+					for _, proto := range []string{"ipfix", "nf9", "nf5", "sflow"} {
+						r.exps[i%len(r.exps)].send(proc.port(proto), []byte{0, 10, 0, 16, 0, 0, 0, 1, 0, 0, 0, byte(i), 0, 0, 0, 0})
+					}
+				}
+			}()
+		}
 		exited := proc.waitExit(6 * time.Second)
+		if exited && len(cy.LateMS) > 0 {
+			// let the late senders finish their schedule only if the process is still there
+		}
 		close(stopTraffic)
 		twg.Wait()
 		if len(acked) > 0 && (cy.Inflight || cy.Burst >= 50) {
